@@ -109,6 +109,13 @@ def sh(cmd, cwd=None, env=None, timeout=1800):
 
 
 def theorem_at(lines, ln):
+    # an error reported at the start of a declaration sits on its doc comment: look forward first
+    i = min(ln, len(lines)) - 1
+    if lines[i].lstrip().startswith("/--"):
+        for j in range(i, min(i + 6, len(lines))):
+            m = re.match(r"\s*(?:theorem|example)\s+(\w+)?", lines[j])
+            if m:
+                return m.group(1) or "example@%d" % (j + 1)
     for i in range(min(ln, len(lines)) - 1, -1, -1):
         m = re.match(r"\s*(?:theorem|example|def)\s+(\w+)?", lines[i])
         if m and re.match(r"\s*(theorem|example)", lines[i]):
